@@ -58,6 +58,7 @@ class Engine(OpsMixin):
         self.violations = []     # dicts
         self.sites_reached = {}  # site -> count
         self.extra_interp = set()
+        self.crosscheck_every = 0
         self.known = []          # known-finding entries (dicts) that apply to the current harness
         self.witness_cap = 10 ** 9
         Closure.engine = self
@@ -181,6 +182,50 @@ class Engine(OpsMixin):
                     f.write("\n(check-sat)\n")
             raise SolverUnknown((self.fresh_solver if self.real_mode else self.solver).reason_unknown())
         return r
+
+    def crosscheck(self, extra):
+        """second solver: every crosscheck_every-th `unsat` assertion query is written as SMT-LIB2 and re-decided by the
+        cvc5 binary. cvc5 saying `sat` is a disagreement (the run becomes inconclusive); `unknown`, a time-out or a parse
+        error are counted as undecided, never as agreement."""
+        import subprocess
+        import tempfile
+        self.cc_seen = getattr(self, "cc_seen", 0) + 1
+        if self.cc_seen % self.crosscheck_every != 1 and self.crosscheck_every != 1:
+            return
+        st = self.stats
+        fs = z3.Solver()
+        fs.add(*self.pc)
+        fs.add(extra)
+        text = fs.sexpr().replace("bv2int", "bv2nat")
+        import re as _re
+        for nm in set(_re.findall(r"\(declare-fun ([A-Za-z_][A-Za-z0-9_]*) ", text)) & {
+                "exists", "forall", "let", "par", "assert", "match", "as", "push", "pop", "exit", "define", "declare"}:
+            text = _re.sub(r"(?<![A-Za-z0-9_.|#:\[\]-])%s(?![A-Za-z0-9_.|#:\[\]-])" % nm, "|%s_var|" % nm, text)
+        body = "(set-logic ALL)\n" + text + "\n(check-sat)\n"
+        try:
+            with tempfile.NamedTemporaryFile("w", suffix=".smt2", delete=False, dir=os.environ.get("PYSYM_CC_DIR")) as f:
+                f.write(body)
+                path = f.name
+            try:
+                pr = subprocess.run(["cvc5", "--tlimit=10000", path], capture_output=True, text=True, timeout=20)
+                out = pr.stdout
+                if os.environ.get("PYSYM_CC_KEEP") and not out.strip().startswith(("unsat", "sat")):
+                    import shutil
+                    shutil.copy(path, os.environ["PYSYM_CC_KEEP"])
+                    with open(os.environ["PYSYM_CC_KEEP"] + ".out", "w") as g:
+                        g.write(out + pr.stderr)
+            finally:
+                os.unlink(path)
+        except Exception:
+            out = "error"
+        first = out.strip().splitlines()[0] if out.strip() else "error"
+        if first == "unsat":
+            st["cc_agree"] = st.get("cc_agree", 0) + 1
+        elif first == "sat":
+            st["cc_disagree"] = st.get("cc_disagree", 0) + 1
+            raise SolverUnknown("second solver (cvc5) answers sat where z3 answered unsat")
+        else:
+            st["cc_undecided"] = st.get("cc_undecided", 0) + 1
 
     def cur_model(self):
         return self.fresh_solver.model() if (self.real_mode and self.fresh_solver is not None) else self.solver.model()
@@ -403,6 +448,8 @@ class Engine(OpsMixin):
         self.stats["assert_s"] += time.time() - t0
         if r == z3.unsat:
             self.stats["assert_unsat"] += 1
+            if self.crosscheck_every:
+                self.crosscheck(z3.Not(t))
             self._add(t)
             return
         self.record_violation(site, z3.Not(t))
